@@ -339,6 +339,14 @@ func (m *Machine) stub(fn *ssa.Function, args []Val) (r Val, ok bool) {
 		// opaque: an arbitrary float of the requested size, no error (range errors are outside the harness bounds)
 		f := m.newEnvNondet(64, "float")
 		return Agg{f, Iface{}}, true
+	case "(github.com/segmentio/asm/cpu/cpuid.CPU).Has":
+		// CPU feature bits come from CPUID (assembly, not executed): absent by default, all present after vfCPUAll(),
+		// which selects the code paths a machine with AVX/ASIMD takes (segmentio/asm keyset, etc.; their purego bodies
+		// define the semantics of the assembly routines)
+		if m.cpuAll {
+			return Bool(true), true
+		}
+		return nil, false
 	case "errors.Is":
 		return m.errorsIs(args[0].(Iface), args[1].(Iface)), true
 	case "(*sync.Mutex).Lock", "(*sync.RWMutex).Lock", "(*sync.RWMutex).RLock":
@@ -650,6 +658,9 @@ func (m *Machine) intrinsic(name string, fn *ssa.Function, args []Val) (Val, boo
 		m.knownCur = ""
 		return nil, true
 	case "vfModelBug":
+		return nil, true
+	case "vfCPUAll":
+		m.cpuAll = true
 		return nil, true
 	case "vfPoolMode":
 		m.poolMode = m.concInt(args[0].(*Term), "pool mode")
